@@ -5,8 +5,8 @@ from __future__ import annotations
 from hypothesis import strategies as st
 
 from vlib import enumer, gen
-from vlib.build import build
-from vlib.core import Part
+from vlib.build import Flavour, build
+from vlib.core import Part, nested_part
 from vlib.observe import walk
 
 from nutree.common import CONNECTORS
@@ -350,7 +350,7 @@ def abandoned_renderings(tree, w, how):
 
 def run_random(case, rec):
     typed = case["typed"]
-    tree, nodes = build(case["spec"], typed=typed, name="T")
+    tree, nodes = build(case["spec"], typed=typed, name="T", flavour=Flavour(case.get("flavour", "str")))
     w = walk(tree)
     if case.get("abandon"):
         abandoned_renderings(tree, w, case["abandon"])
@@ -432,6 +432,8 @@ def hyp_cases(draw, tier):
         "repr": draw(st.sampled_from(["default", "fmt", "fmt2", "callable", "trailing-space", "sometimes-empty"])),
         "join": draw(st.sampled_from([None, "\n", ", ", "\r\n", ";"])),
         "abandon": draw(st.sampled_from([0, 0, 0, 1, 2, 3])),
+        # data objects whose format() text is not their str() text
+        "flavour": draw(st.sampled_from(["str", "str", "money"])),
     }
 
 
@@ -509,4 +511,5 @@ PARTS = [
     Part("exhaustive", run_exhaustive, enum=enum_cases),
     Part("random-options", run_random, strategy=lambda tier: hyp_cases(tier), n={"quick": 2000, "thorough": 200000}),
     Part("render-mutate-render", run_requery, strategy=lambda tier: requery_cases(tier), n={"quick": 400, "thorough": 30000}),
+    nested_part("C16", ["random-options"], {"PYTHONIOENCODING": "ascii"}, "ascii-stdout", "sys.stdout cannot encode the box drawing characters; format() returns text, it does not print"),
 ]
